@@ -59,12 +59,13 @@ def run(ctx, rep):
     rep.explain("C04: the writer CompiledItem::repr is evaluated abstractly (symbolic argument) to its per-argument output expression; the reader "
                 "split_string_v2 is evaluated abstractly per (state, character class) to its transition table; round trip is decided by "
                 "finite composition over all class singletons, pairs and the empty string. Plus literal/const agreement on record framing.")
-    rep.assume("NUL inside an argument is outside the property's alphabet; I/O errors are not modelled")
+    rep.assume("I/O errors are not modelled")
     _codecs.fresh_output_files(F, rep, "C04.fresh-file", ["compiler"], 1)
     entry_key(F, rep)
     from props import _strunits
     _strunits.unit_mix(F, rep, "C04.index-unit", ["compiler", "bytecode"])
     log_arguments(F, rep)
+    panic_is_not_success(ctx, rep)
     rep.assume("a character not compared against any constant by the reader behaves like the class representative 'x' (the reader touches "
                "characters only through comparisons with constants and char::is_whitespace)")
     try:
@@ -208,3 +209,75 @@ def log_arguments(F, rep):
         rep.ob("C04.log-arguments", "no argument of a log statement in the interpreter borrows a cell (%d log statements)" % n, "ok", "", None,
                key="C04.log-arguments|summary")
     rep.floor("C04.log-arguments log statements in crate bytecode", n, 15)
+
+
+
+def panic_is_not_success(ctx, rep):
+    """`run` and `execute` both run the program on a thread of its own and join it.  The two commands agree on success / failure only if a
+    thread that died of a panic is a failure in both: the `Err` a `JoinHandle::join` yields never reaches an `Ok` return of `main`.  Each join
+    in the binary is judged: its result is unwrapped / re-raised (`unwrap`, `expect`, `resume_unwind`), or matched with an `Err` edge from which
+    no Ok return is reachable."""
+    F = ctx.facts("default", ["mscript-bin", "bytecode", "compiler", "bytecode_dev_transpiler"])
+    n = 0
+    for cr in F.crates.values():
+        for f in cr.fns:
+            for c in f.calls():
+                if not (c.callee().split("::")[-1] == "join" and "JoinHandle" in c.callee()):
+                    continue
+                n += 1
+                key = "C04.exit-status|join#%d" % n
+                inst = "%s: a panicked interpreter thread does not end in a successful exit (join #%d)" % (mir.short(f.path), n)
+                users = [x for x in f.calls() if x.args and op_local(x.args[0]) == c.dst["l"]]
+                if any(x.matches(("core::result::Result::unwrap", "core::result::Result::expect", "std::panic::resume_unwind")) or
+                       mir.short(x.callee()) in ("Result::<T, E>::unwrap", "Result::unwrap", "Result::<T, E>::expect", "Result::expect") for x in users):
+                    rep.ob("C04.exit-status", inst, "ok", "the join result is unwrapped", c.span, fn=f.path, key=key)
+                    continue
+                # every test of the join result (the local itself, copies and borrows of it): take the `it is Ok` edges away everywhere at once -
+                # what is still reachable from the join is what runs when the thread panicked
+                holders = {c.dst["l"]}
+                changed = True
+                while changed:
+                    changed = False
+                    for bi, si, dst, rv, s_ in f.assigns():
+                        pl = (mir.op_place(rv["use"]) if "use" in rv else None) or rv.get("ref")
+                        if pl and pl["l"] in holders and not [e for e in pl.get("p", []) if e[0] != "deref"] and dst["l"] not in holders:
+                            holders.add(dst["l"])
+                            changed = True
+                ok_edges = set()
+                tests = 0
+                for bb, blk in enumerate(f.blocks):
+                    t = blk["t"]
+                    if t["k"] != "switch":
+                        continue
+                    dl = op_local(t["discr"])
+                    for s_ in blk["s"]:
+                        if "d" in s_ and s_["d"]["l"] == dl and "discr" in s_["rv"]:
+                            pl = s_["rv"]["discr"]
+                            if pl["l"] in holders and not [e for e in pl.get("p", []) if e[0] != "deref"]:
+                                tests += 1
+                                for v, tg in t["targets"]:
+                                    if str(v) == "0":
+                                        ok_edges.add((bb, tg))
+                                if "0" not in [str(v) for v, _ in t["targets"]]:
+                                    ok_edges.add((bb, t["otherwise"]))
+                # `finished.is_ok()` / `is_err()`
+                for x in f.calls():
+                    nm = mir.short(x.callee())
+                    if x.args and op_local(x.args[0]) in holders and nm.split("::")[-1] in ("is_ok", "is_err"):
+                        der = f.derived([x.dst["l"]])
+                        for bb, t_t, f_t, pol in rules.bool_switches(f, der):
+                            if pol is None:
+                                continue
+                            truth = pol if nm.endswith("is_ok") else (not pol)
+                            ok_edges.add((bb, t_t if truth else f_t))
+                            tests += 1
+                if not tests:
+                    rep.ob("C04.exit-status", inst, "undecided", "the join result is neither unwrapped nor tested in a form this rule reads", c.span, fn=f.path, key=key)
+                    continue
+                reach = f.reachable(c.target, removed_edges=ok_edges) if c.target is not None else set()
+                oks = [b for b in rules.ok_return_blocks(f) if b in reach]
+                rep.ob("C04.exit-status", inst, "violated" if oks else "ok",
+                       ("with every `the join result is Ok` edge taken away an Ok return of %s is still reachable: the command exits 0 although the interpreter "
+                        "died of a panic (the sibling command re-raises it and exits 101)" % mir.short(f.path)) if oks else "%d tests of the join result; its Err side never reaches an Ok return" % tests,
+                       c.span, fn=f.path, key=key)
+    rep.floor("C04.exit-status thread joins in the binary", n, 2)
